@@ -63,13 +63,14 @@ def correspond(ctx):
     # model-vs-implementation: random call trees on the real SEVM, on Model.Calls (Driver/Calls.lean) and on the reference EVM
     from vlib import callsmodel
 
-    callsmodel.run(ctx, n_trees=ctx.scale(150, 2500), n_inputs=ctx.scale(3, 5))
+    callsmodel.run(ctx, n_trees=ctx.scale(150, 1200), n_inputs=ctx.scale(3, 4))
 
 
 def replay(ctx, data):
-    if data.get("kind") == "callsmodel":
+    inner = data.get("replay", data)
+    if isinstance(inner, dict) and inner.get("kind") == "callsmodel":
         from vlib import callsmodel
 
-        return callsmodel.replay(ctx, data)
+        return callsmodel.replay(ctx, inner)
     print("stored program and inputs are in the replay file; re-run ./check C09 to re-evaluate the corpus")
     return True
